@@ -13,6 +13,15 @@ import (
 )
 
 // exerciser calls every accessor of a decode result and judges each against the reference.
+// heldNested is a nested result kept by the caller together with what it must contain.
+type heldNested struct {
+	nr    *lazyproto.DecodeResult
+	l     *level
+	def   lazyproto.Def
+	path  []int
+	empty bool
+}
+
 type exerciser struct {
 	res     *monitor.Result
 	prop    string
@@ -30,6 +39,9 @@ type exerciser struct {
 	// nestedSeen collects nested results obtained (C14/C15 accounting)
 	nestedSeen []*lazyproto.DecodeResult
 	violated   bool
+	// hold, when set, collects the top-level nested results handed out by NestedResult so that a caller can
+	// read them again later (they stay valid until their parent is closed)
+	hold *[]heldNested
 }
 
 type handedValue struct {
@@ -310,6 +322,9 @@ func (x *exerciser) nested(r *lazyproto.DecodeResult, l *level, def lazyproto.De
 		} else {
 			x.classes[fmt.Sprintf("NestedResult/len%s/%s/%s/d%d", lenClass(len(last)), x.mode, x.entry, len(path))]++
 			x.result(nr, sl, sub, p, len(last) == 0, depth-1)
+			if x.hold != nil && len(path) == 0 {
+				*x.hold = append(*x.hold, heldNested{nr: nr, l: sl, def: sub, path: p, empty: len(last) == 0})
+			}
 		}
 	}
 	allOK := true
